@@ -501,8 +501,20 @@ static int op_pullup(const struct inst *in)
 	if (no_read_access(b)) return RS_SKIP;
 	ssize_t n = in->a1 == SZ_NEG ? -1 : (ssize_t)resolve(in->a1, M[b].len);
 	size_t want = bs_pullup(&M[b], n);
+	/* "referenced chains are never modified in place": remember the first chain if it is immutable
+	 * (a reference, a file segment, or memory shared through add_buffer_reference) */
+	struct evbuffer_chain *f0 = EB[b]->first; size_t f0_off = f0 ? f0->off : 0;
+	int f0_immutable = f0 && (f0->flags & EVBUFFER_IMMUTABLE);
 	unsigned char *p = evbuffer_pullup(EB[b], n);
 	MC_COUNT("retval_compared");
+	if (f0_immutable && want > f0_off && EB[b]->first == f0 && f0->off > f0_off) {
+		/* the chain is still there and holds more bytes than before: pullup wrote behind its data,
+		 * i.e. into memory that other buffers share (a second writer then overwrites these bytes) */
+		failk("immutable-written", "pullup", "%s: evbuffer_pullup(%zd) extended the immutable first chain (flags 0x%x) in place from %zu to %zu bytes",
+		    in->name, n, f0->flags, f0_off, f0->off);
+		return RS_DEAD;
+	}
+	if (f0_immutable && want > f0_off) MC_COUNT("pullup_over_immutable_first_chain_checked");
 	if (!want) { if (p) { failk("retval", in->name, "pullup returned a pointer, model NULL"); return RS_DEAD; } return RS_OK; }
 	if (!p) { failk("retval", in->name, "pullup(%zd) returned NULL (len %zu)", n, M[b].len); return RS_DEAD; }
 	MC_COUNT("readback_pullup");
@@ -564,6 +576,31 @@ static int op_copyout(const struct inst *in)
 	return RS_OK;
 }
 
+/* compound instance: up to three sub-operations in a row, each checked like a
+ * single one (return value vs. model, then validator on both buffers).  Used to
+ * bring constellations that need 6 plain calls (two writers into the spare room
+ * behind a shared, buffer-referenced chain) within the depth of the quick tier. */
+static const struct inst SUB[] = {
+	{ op_bufref, "add_buffer_reference(Y<-X)", 1, 0, 0, 0 },   /* 0 */
+	{ op_add, "addY", 1, 1, 0, 0 },                            /* 1 */
+	{ op_pullup, "pullupY", 1, SZ_NEG, 0, 0 },                 /* 2 */
+	{ op_add, "add", 0, 2, 0, 0 },                             /* 3 */
+	{ op_pullup, "pullup", 0, SZ_NEG, 0, 0 },                  /* 4 */
+	{ op_bufref, "add_buffer_reference(X<-Y)", 0, 0, 0, 0 },   /* 5 */
+};
+static int op_seq(const struct inst *in)
+{
+	const long idx[3] = { in->a1, in->a2, in->a3 };
+	for (int i = 0; i < 3; i++) {
+		if (idx[i] < 0) continue;
+		const struct inst *su = &SUB[idx[i]];
+		int r = su->fn(su);
+		if (r == RS_DEAD || mc_failed()) return RS_DEAD;
+		if (validate_all(in->name) || check_no_stale_refs(in->name)) return RS_DEAD;
+	}
+	return RS_OK;
+}
+
 static void addi(int (*fn)(const struct inst *), const char *name, int b, long a1, long a2, long a3)
 {
 	if (NINST >= MAXINST) exit(2);
@@ -600,7 +637,12 @@ static void build15(int alpha)
 	addi(op_add, "add", X, 2, 0, 0);
 	addi(op_prepend, "prepend", X, 2, 0, 0);
 	addi(op_copyout, "copyout", X, 0, 0, 0);
+	/* a referencing destination appends and pulls up; the source appends and pulls up */
+	addi(op_seq, "bufref+add+pullup(Y<-X)", Y, 0, 1, 2);
+	addi(op_seq, "add+pullup(X)", X, 3, 4, -1);
 	if (alpha >= 1) {
+		addi(op_seq, "bufref+add+pullup(X<-Y)", X, 5, 3, 4);
+		addi(op_seq, "add+pullup(Y)", Y, 1, 2, -1);
 		addi(op_seg_new, "seg_new-mmap", X, 0, 3, 0);
 		addi(op_seg_new, "seg_new-read", X, 1, 1, 0);
 		addi(op_seg_new, "seg_new-sendfile", X, 2, 3, 0);
